@@ -233,16 +233,109 @@ Example step_ok_example :
 Proof. vm_compute. reflexivity. Qed.
 
 (* ---------- sink trunc: truncateObservation at one limit ---------- *)
+(* the Err clause: [nothing_fits] is "the loop, replayed on the case's witness path with the case's sizes, ends in the
+   error" - so C17_error_only_if_nothing_fits applies to an ARBITRARY answer that passes *)
+Lemma step_nodup o c : NoDup (tkeys (t_commits o)) -> NoDup (tkeys (t_commits (step o c))).
+Proof.
+  intros ND. unfold step. destruct (alookup c (t_commits o)) as [l|]; [|now apply tch_nodup].
+  destruct (Nat.ltb 1 (length l)); [now apply tlc_nodup|now apply tch_nodup].
+Qed.
+
+Section NothingFits.
+  Variable size : tobs -> N.
+  Variable max : Z.
+  Variable pick : nat -> tobs -> N.
+  Let stepf := fun o c => Ok (step o c).
+
+  Lemma nothing_fits_iff fuel : forall n o,
+    nothing_fits size max pick fuel n o = true <-> loop size max pick stepf fuel n o = Err.
+  Proof.
+    induction fuel as [|fuel IH]; intros n o; cbn [nothing_fits loop].
+    - destruct (too_big size max o); cbn [andb]; split; discriminate.
+    - destruct (too_big size max o); cbn [andb]; [|split; discriminate].
+      unfold cut_next. destruct (chain_for pick n o) as [c|]; unfold stepf; cbn [rbind].
+      + destruct (t_commits (step o c)); [split; reflexivity|apply IH].
+      + destruct (t_commits o); [split; reflexivity|apply IH].
+  Qed.
+
+  (* every measured observation is too big *)
+  Lemma nothing_fits_trace fuel n o :
+    nothing_fits size max pick fuel n o = true ->
+    Forall (fun x => (max < Z.of_N (size x))%Z) (trace size max pick fuel n o).
+  Proof. intros H. apply loop_err. now apply nothing_fits_iff. Qed.
+
+  (* and the measuring went on to the end: the last measured observation is one cut away from "no more data" *)
+  Lemma nothing_fits_last fuel : forall n o,
+    nothing_fits size max pick fuel n o = true ->
+    exists pre x, trace size max pick fuel n o = pre ++ [x] /\
+                  t_commits (cut_next pick (n + length pre) x) = [].
+  Proof.
+    induction fuel as [|fuel IH]; intros n o H; cbn [nothing_fits trace] in *.
+    - destruct (too_big size max o); discriminate.
+    - destruct (too_big size max o); cbn [andb] in H; [|discriminate].
+      unfold cut_next in H. fold (cut_next pick n o) in H.
+      change (match chain_for pick n o with Some c => step o c | None => o end) with (cut_next pick n o).
+      destruct (t_commits (cut_next pick n o)) eqn:E.
+      + exists [], o. cbn [app length]. rewrite Nat.add_0_r. split; [reflexivity|exact E].
+      + destruct (IH _ _ H) as (pre & x & Ht & Hx). exists (o :: pre), x. rewrite Ht. split; [reflexivity|].
+        cbn [length]. rewrite Nat.add_succ_r. exact Hx.
+  Qed.
+
+  Lemma trace_nodup fuel : forall n o,
+    NoDup (tkeys (t_commits o)) ->
+    Forall (fun x => NoDup (tkeys (t_commits x))) (trace size max pick fuel n o).
+  Proof.
+    induction fuel as [|fuel IH]; intros n o ND; cbn [trace].
+    - destruct (too_big size max o); repeat constructor; exact ND.
+    - constructor; [exact ND|]. destruct (too_big size max o); [|constructor].
+      destruct (chain_for pick n o) as [c|].
+      + destruct (t_commits (step o c)) eqn:E; [constructor|]. apply IH. now apply step_nodup.
+      + destruct (t_commits o) eqn:E; [constructor|]. apply IH. rewrite E. exact ND.
+  Qed.
+End NothingFits.
+
+(* an observation one cut away from "no more data" holds at most one commit report *)
+Lemma aremove_nil_single c (l : list tcommit) cm :
+  NoDup (tkeys cm) -> alookup c cm = Some l -> aremove c cm = [] -> cm = [(c, l)].
+Proof.
+  intros ND Hl Hr. destruct cm as [|[k w] cm]; [discriminate|].
+  unfold aremove in Hr. cbn [filter fst] in Hr. cbn [alookup] in Hl.
+  destruct (N.eqb_spec k c) as [->|Hk]; cbn [negb] in Hr; [|discriminate].
+  rewrite N.eqb_refl in Hl. inversion Hl; subst w. f_equal.
+  destruct cm as [|[k2 w2] cm]; [reflexivity|]. cbn [filter fst] in Hr.
+  destruct (N.eqb_spec k2 c) as [->|Hk2]; cbn [negb] in Hr; [|discriminate].
+  exfalso. cbn [tkeys map fst] in ND. inversion ND as [|? ? Hn _]; subst. apply Hn. now left.
+Qed.
+
+Lemma cut_next_empty_single pick n x :
+  NoDup (tkeys (t_commits x)) -> t_commits (cut_next pick n x) = [] ->
+  t_commits x = [] \/ exists c l, t_commits x = [(c, l)] /\ (length l <= 1)%nat.
+Proof.
+  intros ND H. destruct (t_commits x) as [|kv cm] eqn:Ecm; [now left|right].
+  unfold cut_next, chain_for in H. rewrite Ecm in H. cbn [tkeys map] in H.
+  set (c := if Nat.eqb n 0 then hd 0%N (sortN (fst kv :: map fst cm)) else pick n x) in H.
+  unfold step in H. rewrite Ecm in H. destruct (alookup c (kv :: cm)) as [l|] eqn:El.
+  - destruct (Nat.ltb_spec 1 (length l)) as [Hlt|Hge].
+    + exfalso. unfold truncate_last_commit in H. rewrite Ecm, El in H.
+      destruct l as [|a l]; [cbn [length] in Hlt; lia|]. cbn [t_commits] in H. unfold aset in H. discriminate.
+    + unfold truncate_chain in H. rewrite Ecm, El in H. cbn [t_commits] in H.
+      exists c, l. split; [|exact Hge]. now apply aremove_nil_single.
+  - exfalso. unfold truncate_chain in H. rewrite Ecm, El in H. rewrite Ecm in H. discriminate.
+Qed.
+
 (* (b) what an answer (result, real encoded size of the result) that passes guarantees: C17_fits on the REAL size,
-   C17_consistent, nothing cut when the original fits, and an error only when the original does not fit (the executable
-   clause sees the original's size only - not the intermediate observations of C17_error_only_if_nothing_fits) *)
-Theorem trunc_ok1_sound o tab max (r : res tobs * N) :
-  toks_have_msgs o -> trunc_ok1 o tab max r = true ->
+   C17_consistent, nothing cut when the original fits; and an error only when NOTHING that the loop measures fits
+   (the clause of C17_error_only_if_nothing_fits, on the case's witness path and size table) down to a last observation
+   that is one cut away from empty *)
+Theorem trunc_ok1_sound o tab max picks (r : res tobs * N) :
+  toks_have_msgs o -> trunc_ok1 o tab max picks r = true ->
   match fst r with
   | Ok o' => (Z.of_N (snd r) <= max)%Z /\ consistent o o' /\
              ((Z.of_N (size_tab tab o) <= max)%Z -> o' = o) /\
              (o' = o \/ t_commits o' <> [])
-  | Err => (max < Z.of_N (size_tab tab o))%Z
+  | Err => let tr := trace (size_tab tab) max (pick_of picks) (S (measure o)) 0 o in
+           Forall (fun x => (max < Z.of_N (size_tab tab x))%Z) tr /\
+           exists pre x, tr = pre ++ [x] /\ t_commits (cut_next (pick_of picks) (length pre) x) = []
   | _ => False
   end.
 Proof.
@@ -252,7 +345,30 @@ Proof.
     + intros Hle. destruct (Z.leb_spec (Z.of_N (size_tab tab o)) max); [|lia]. symmetry. now apply tobs_eqb_eq.
     + apply orb_true_iff in Hne. destruct Hne as [He|Hl]; [left; symmetry; now apply tobs_eqb_eq|right].
       intros E. rewrite E in Hl. discriminate.
-  - lia.
+  - split; [now apply nothing_fits_trace|]. exact (nothing_fits_last _ _ _ _ 0%nat o H).
+Qed.
+
+(* the Err clause alone needs no premise; it is the conclusion of C17_error_only_if_nothing_fits for the judged answer *)
+Theorem trunc_ok1_err_sound o tab max picks n :
+  trunc_ok1 o tab max picks (Err, n) = true ->
+  Forall (fun x => (max < Z.of_N (size_tab tab x))%Z) (trace (size_tab tab) max (pick_of picks) (S (measure o)) 0 o).
+Proof. intros H. now apply nothing_fits_trace. Qed.
+
+(* with unique chain keys (a Go map): the last observation measured before the error holds at most one commit report,
+   and it does not fit - "not even one report fits" *)
+Theorem trunc_ok1_err_single_report o tab max picks n :
+  NoDup (tkeys (t_commits o)) -> trunc_ok1 o tab max picks (Err, n) = true ->
+  exists x, In x (trace (size_tab tab) max (pick_of picks) (S (measure o)) 0 o) /\
+            (max < Z.of_N (size_tab tab x))%Z /\
+            (t_commits x = [] \/ exists c l, t_commits x = [(c, l)] /\ (length l <= 1)%nat).
+Proof.
+  intros ND H. cbn [trunc_ok1 fst] in H.
+  pose proof (nothing_fits_trace _ _ _ _ _ _ H) as HF.
+  pose proof (trace_nodup (size_tab tab) max (pick_of picks) (S (measure o)) 0 o ND) as HN.
+  destruct (nothing_fits_last _ _ _ _ 0%nat o H) as (pre & x & Ht & Hx).
+  rewrite Forall_forall in HF, HN. assert (Hi : In x (trace (size_tab tab) max (pick_of picks) (S (measure o)) 0 o)).
+  { rewrite Ht. apply in_or_app. right. now left. }
+  exists x. split; [exact Hi|]. split; [now apply HF|]. eapply cut_next_empty_single; [now apply HN|exact Hx].
 Qed.
 
 Theorem trunc_sound (i : trunc_in) (out : trunc_out) :
@@ -263,13 +379,15 @@ Theorem trunc_sound (i : trunc_in) (out : trunc_out) :
     match fst r with
     | Ok o' => (Z.of_N (snd r) <= fst run)%Z /\ consistent o o' /\
                ((Z.of_N (size_tab tab o) <= fst run)%Z -> o' = o) /\ (o' = o \/ t_commits o' <> [])
-    | Err => (fst run < Z.of_N (size_tab tab o))%Z
+    | Err => let tr := trace (size_tab tab) (fst run) (pick_of (snd run)) (S (measure o)) 0 o in
+             Forall (fun x => (fst run < Z.of_N (size_tab tab x))%Z) tr /\
+             exists pre x, tr = pre ++ [x] /\ t_commits (cut_next (pick_of (snd run)) (length pre) x) = []
     | _ => False
     end.
 Proof.
   destruct i as [[o tab] runs]. intros Ht H. unfold trunc_ok in H. apply andb_true_iff in H. destruct H as [Hl Hall].
   apply Nat.eqb_eq in Hl. split; [now symmetry|]. intros n run r Hr Ho.
-  rewrite forallb_forall in Hall. apply (trunc_ok1_sound o tab (fst run) r Ht).
+  rewrite forallb_forall in Hall. apply (trunc_ok1_sound o tab (fst run) (snd run) r Ht).
   apply (Hall (run, r)). clear Hall Hl. revert out n Hr Ho.
   induction runs as [|x runs IH]; intros [|y out] [|n] Hr Ho; cbn [nth_error combine] in *; try discriminate.
   - inversion Hr; inversion Ho; subst. now left.
@@ -277,13 +395,7 @@ Proof.
 Qed.
 
 (* (a): the loop keeps the chain keys unique, cuts nothing when the original fits, ends with a chain entry, and errs
-   only on a too-big original *)
-Lemma step_nodup o c : NoDup (tkeys (t_commits o)) -> NoDup (tkeys (t_commits (step o c))).
-Proof.
-  intros ND. unfold step. destruct (alookup c (t_commits o)) as [l|]; [|now apply tch_nodup].
-  destruct (Nat.ltb 1 (length l)); [now apply tlc_nodup|now apply tch_nodup].
-Qed.
-
+   only after every measured observation was too big (C17_error_only_if_nothing_fits) *)
 Section LoopJ.
   Variable size : tobs -> N.
   Variable max : Z.
@@ -362,7 +474,7 @@ Theorem trunc_model_passes1 o tab max picks :
   NoDup (tkeys (t_commits o)) ->
   truncate (size_tab tab) max (pick_of picks) o <> Spin ->     (* the witness path replays to an end *)
   let res := truncate (size_tab tab) max (pick_of picks) o in
-  trunc_ok1 o tab max (res, match res with Ok o' => size_tab tab o' | _ => 0%N end) = true.
+  trunc_ok1 o tab max picks (res, match res with Ok o' => size_tab tab o' | _ => 0%N end) = true.
 Proof.
   intros ND Hs res. unfold trunc_ok1. cbn [fst snd].
   destruct res as [o'| | |] eqn:E; subst res.
@@ -377,7 +489,7 @@ Proof.
     + unfold truncate in E. apply loop_cut_or_same in E. apply orb_true_iff. destruct E as [->|Hne].
       * left. now apply tobs_eqb_eq.
       * right. destruct (t_commits o'); [contradiction|reflexivity].
-  - unfold truncate in E. apply loop_err_too_big in E. unfold too_big in E. exact E.
+  - unfold truncate in E. now apply nothing_fits_iff.
   - exfalso. exact (loop_no_panic _ _ _ _ _ _ E).
   - contradiction.
 Qed.
@@ -401,3 +513,37 @@ Example trunc_ok_example :
   trunc_ok (o, tab, [(50%Z, [1%N]); (100%Z, []); (10%Z, [1%N; 1%N])])
            [(Ok (mkTObs [(1%N, [mkTC 1 5 6])] [] [] [] []), 40%N); (Ok o, 90%N); (Err, 0%N)] = true.
 Proof. vm_compute. reflexivity. Qed.
+
+(* ---------- the Err clause before the strengthening: judged against the ORIGINAL's size only ---------- *)
+Definition trunc_ok1_before (o : tobs) (tab : list (vec_t * N)) (max : Z) (r : res tobs * N) : bool :=
+  match fst r with
+  | Ok o' => Z.leb (Z.of_N (snd r)) max && consistentb o o' &&
+             (if Z.leb (Z.of_N (size_tab tab o)) max then tobs_eqb o o' else true) &&
+             (tobs_eqb o o' || negb (Nat.eqb (length (t_commits o')) 0))
+  | Err => Z.ltb max (Z.of_N (size_tab tab o))
+  | _ => false
+  end.
+Definition trunc_ok_before (i : trunc_in) (out : trunc_out) : bool :=
+  let '(o, tab, runs) := i in
+  Nat.eqb (length runs) (length out) &&
+  forallb (fun p => trunc_ok1_before o tab (fst (fst p)) (snd p)) (combine runs out).
+
+(* two reports of 90 bytes together, 40 bytes with the first one alone, limit 50: the answer "error" was accepted
+   although the single-report observation fits (the model answers Ok with one report) *)
+Definition weak_trunc_in : trunc_in :=
+  (mkTObs [(1%N, [mkTC 1 5 6; mkTC 2 7 8])] [(1, 7, 100)%N] [(1%N, 7%N)] [100%N] [],
+   [([(1%N, 2%nat)], 90%N); ([(1%N, 1%nat)], 40%N)], [(50%Z, [1%N])]).
+Theorem trunc_ok_before_weak :
+  trunc_ok_before weak_trunc_in [(Err, 0%N)] = true /\
+  trunc_ok weak_trunc_in [(Err, 0%N)] = false /\
+  trunc_model weak_trunc_in = [(Ok (mkTObs [(1%N, [mkTC 1 5 6])] [] [] [] []), 40%N)] /\
+  trunc_ok weak_trunc_in (trunc_model weak_trunc_in) = true.
+Proof. vm_compute. repeat split. Qed.
+
+(* the hypotheses of trunc_ok1_err_sound / _single_report are satisfiable: a genuine error (limit 10) *)
+Example trunc_ok1_err_example :
+  let o := mkTObs [(1%N, [mkTC 1 5 6; mkTC 2 7 8]); (2%N, [mkTC 3 1 2])] [(1, 7, 100)%N] [(1%N, 7%N)] [100%N] [] in
+  let tab := [([(1%N, 2%nat); (2%N, 1%nat)], 120%N); ([(1%N, 1%nat); (2%N, 1%nat)], 70%N); ([(2%N, 1%nat)], 30%N)] in
+  NoDup (tkeys (t_commits o)) /\ trunc_ok1 o tab 10 [1%N; 1%N; 2%N] (Err, 0%N) = true /\
+  length (trace (size_tab tab) 10 (pick_of [1%N; 1%N; 2%N]) (S (measure o)) 0 o) = 3%nat.
+Proof. cbv zeta. split; [repeat constructor; cbn; intuition discriminate|]. vm_compute. split; reflexivity. Qed.
